@@ -44,6 +44,7 @@ class TSQRGuard(ArrayOpSpec):
     def setup(self, c):
         x = sym_array(c, "x", 2, dtype=Dtype("float64", 8))
         c.assume(x.chunksize[1] == x.shape[1])
+        c.assume(x.shape[1] >= 1)  # a matrix without columns is refused at build time (IndexError in _qr_first_step)
         c.expect_origin = None
         return (x,), {}
 
@@ -53,8 +54,8 @@ class TSQRGuard(ArrayOpSpec):
     def ensures(self, c, a, k, res):
         yield "accepted-only-with-tall-row-blocks", c.Not(short_row_block(c, a[0]))
 
-    def replay_case(self, cfg, model):
-        return QRFirstStep.replay_case(self, cfg, model)
+    def replay(self, cfg, model, ob):
+        return QRFirstStep.replay(self, cfg, model, ob)
 
 
 @register
@@ -73,6 +74,7 @@ class QRFirstStep(ArrayOpSpec):
     def setup(self, c):
         x = sym_array(c, "x", 2, dtype=Dtype("float64", 8))
         c.assume(x.chunksize[1] == x.shape[1])  # single column chunk (qr() refuses anything else)
+        c.assume(x.shape[1] >= 1)  # at least one column
         # requires (established by tsqr, see TSQRGuard): every row block has at least as many rows as there are columns
         c.assume(c.Not(short_row_block(c, x)))
         c.expect_origin = None
@@ -85,11 +87,32 @@ class QRFirstStep(ArrayOpSpec):
         yield "R1-shape", c.And(r1.shape[0] == x.shape[1] * x.numblocks[0], r1.shape[1] == x.shape[1])
 
     def replay_case(self, cfg, model):
+        return None
+
+    def replay(self, cfg, model, ob):
         n0, c0 = max(1, int(model.get("x_n0", 1))), max(1, int(model.get("x_c0", 1)))
         n1 = max(1, int(model.get("x_n1", 1)))
         if n0 * n1 > 200000:
             return None
-        build = (f"lambda xp, A: xp.matmul(*xp.linalg.qr(xp.asarray(__import__('numpy').arange({n0 * n1}, dtype='float64').reshape({n0}, {n1}) % 7 + 1.0, "
-                 f"chunks=({c0}, {n1}), spec=A['__spec__'])))")
-        ref = f"lambda np, A: np.arange({n0 * n1}, dtype='float64').reshape({n0}, {n1}) % 7 + 1.0"
-        return {}, build, ref
+        return f"""
+import tempfile, shutil
+import numpy as np
+import cubed, cubed.array_api as xp
+d = tempfile.mkdtemp(prefix="pyvc-replay-")
+try:
+    spec = cubed.Spec(work_dir=d, allowed_mem="2GB")
+    a = np.arange({n0 * n1}, dtype="float64").reshape({n0}, {n1}) % 7 + 1.0 + np.eye({n0}, {n1})
+    try:
+        q, r = xp.linalg.qr(xp.asarray(a, chunks=({c0}, {n1}), spec=spec))
+    except (ValueError, TypeError, NotImplementedError) as e:
+        reproduced, detail = False, f"declined at build time with {{type(e).__name__}}: {{str(e)[:120]}}"
+    else:
+        try:
+            qv, rv = cubed.compute(q, r)
+            ok = qv.shape == ({n0}, {n1}) and rv.shape == ({n1}, {n1}) and np.allclose(qv @ rv, a)
+            reproduced, detail = (not ok), f"Q {{qv.shape}} R {{rv.shape}}; Q @ R close to the input: {{bool(np.allclose(qv @ rv, a))}}"
+        except Exception as e:
+            reproduced, detail = True, f"accepted, then failed during execution: {{type(e).__name__}}: {{str(e)[:200]}}"
+finally:
+    shutil.rmtree(d, ignore_errors=True)
+"""
